@@ -9,25 +9,53 @@ Call histories: forests of live contexts on which overloads are registered and d
 in between from old and new contexts; every call is compared with the rules and with the Lean model
 (`Yaql.ResolveCtx.run` / `resolveIn`, the C17 context model joined with `Resolve`) applied to the
 family AS REGISTERED AT THAT MOMENT, which the harness records from its own API calls.
+Definitions from real Python callables: about half of the overloads are randomly WRITTEN Python functions (plain
+defs, closures of one factory, lambdas, functions of a factory-made class; positional / defaulted / *args /
+keyword-only with and without defaults / **kwargs; hidden parameters by name or by @specs.inject; @specs.parameter
+with smart types, bare classes, nullable, alias, by name or by index, in a shuffled order; @specs.method /
+extension_method / name / no_kwargs / meta) that reach the context as prepared definitions (with / without the naming
+convention) or as callables handed to register_function.  The FunctionDefinition the DOCUMENTED rules prescribe
+(`resolvelib.expected_fd`) is derived from the generated signature alone, compared with what yaql built
+(`definition-table`), and it - not yaql's own table - is what the rules transcription resolves on; the Lean model of
+get_function_definition (`Yaql.Signature.define`) is run on the same signature + decorators and compared entry by entry.
+Sharing: the same definition object / the same callable is registered in several contexts of a forest (plain,
+MultiContext, LinkedContext) with different exclusive flags, in both orders, before and after calls.
+The harness observes yaql through its public API only (constructors, register_function, delete_function,
+get_functions, calls) and keeps its own record of the registrations (`ctxrecord.Forest`).
 Oracle (real code alone): `resolvelib.spec_resolve`, an independent transcription of
-doc/source/extending_yaql.rst "Function resolution rules" + "single most specific match"."""
+doc/source/extending_yaql.rst "Function resolution rules" + "single most specific match", applied to the
+documented definitions and the recorded registrations."""
 import copy
 import json
 
 import common
+import pyfacts
 import resolvegen
 import resolvelib as rl
 
 ID = 'C05'
-LEAN_MODULES = ['Yaql.Props.C05', 'Yaql.Props.C05Hist']
+LEAN_MODULES = ['Yaql.Props.C05', 'Yaql.Props.C05Hist', 'Yaql.Props.C05Sig', 'Yaql.Props.C05SigGen']
 P = 'Yaql.Props.C05.'
 REQUIRED_THEOREMS = [P + n for n in (
     'resolve_eq_spec', 'unknown_iff', 'first_layer_wins', 'most_specific', 'no_matching_iff', 'kind_filter',
     'constants_prechecked', 'hidden_transparent', 'skipped_needs_default', 'star_absorbs')] + [
     'Yaql.Props.C05Hist.' + n for n in (
         'collectAtP_refines', 'resolveAt_eq_layers', 'resolveIn_eq', 'resolveIn_eq_spec', 'resolve_history_independent',
-        'register_elsewhere_invisible', 'delete_elsewhere_invisible', 'family_plain')]
+        'register_elsewhere_invisible', 'delete_elsewhere_invisible', 'family_plain')] + [
+    'Yaql.Props.C05Sig.' + n for n in (
+        'define_sound', 'define_complete', 'defaults_complete', 'mandatory_stay_mandatory', 'define_perm',
+        'define_perm_find', 'Ex.kwonly_elif_drops_default')] + [
+    'Yaql.Props.C05SigGen.stdlib_tables_follow_signatures', 'Yaql.Props.C05SigGen.stdlib_rows_nonempty']
+
+
+def generate():
+    return pyfacts.run(['SigTable'])['SigTable']
 TRUSTED = ['python dict/set semantics modelled as association lists',
+           'resolvelib.expected_fd: transcription of the documented signature -> FunctionDefinition rules '
+           '(extending_yaql.rst: parameter declaration, automatic parameters, hidden parameters, naming conventions)',
+           'ctxrecord.Forest: the record of the contexts built (plain / MultiContext / LinkedContext) and of the '
+           'registrations; exclusivity is per (context, name)',
+           'harness/gens/sigtable.py: inspect.signature of every stdlib payload next to its FunctionDefinition',
            'resolvelib.enc_fd / enc_arg: the encoding of real FunctionDefinition and expression objects for the model',
            'resolvelib.spec_resolve: transcription of the written rules',
            'resolvelib.History: the record of what register_function / delete_function / create_child_context were told '
@@ -73,8 +101,9 @@ HAND = [
 ]
 
 
-def judge(real, exp, model, fds, pre='', where=''):
-    """real outcome against the rules (`exp`, overload given by id) and against the model -> [(kind, key, message)]"""
+def judge(real, exp, model, fds, pre='', where='', tagof=None):
+    """real outcome against the rules (`exp`, overload given by id) and against the model -> [(kind, key, message)]
+    `tagof`: definition id of the model -> tag of its payload (several definitions may share one callable)"""
     out = []
     if 'delegate_error' in real:
         # resolution succeeded; converting the arguments / calling the payload raised (e.g. a keyword that
@@ -90,6 +119,8 @@ def judge(real, exp, model, fds, pre='', where=''):
             where, real['log'], exp['log'], r_out)))
     if model is not None:
         m_out = model.get('err', model.get('id'))
+        if tagof is not None and 'id' in model:
+            m_out = tagof(m_out)
         mlog = [p for p in model['log'] if p < rl.SILENT]
         if m_out != r_out:
             out.append(('mismatch', pre + 'resolution', '%sreal outcome %r, model %r' % (where, r_out, m_out)))
@@ -107,12 +138,16 @@ def judge(real, exp, model, fds, pre='', where=''):
 def compare(fam, call, model):
     """-> list of (kind, key, message)"""
     real = rl.run_real(fam, call)
-    if 'delegate_error' in real:
+    if 'delegate_error' in real and not fam.table_fails:
         return [], real
     exp = rl.spec_resolve(fam, call)
     if 'id' in exp:
-        exp['id'] = [i for i, fd in fam.fds.items() if fd is exp['id']][0]
-    return judge(real, exp, model, fam.fds), real
+        exp['id'] = exp['id'].tag
+    out = judge(real, exp, model, fam.fds)
+    for fid, diffs in fam.table_fails[:1]:
+        o = next(o for l in fam.spec for o in l['fns'] if o['id'] == fid)
+        out.append(('oracle', 'definition-table', table_message(o, diffs)))
+    return out, real
 
 
 # ---------------------------------------------------------------- call histories on live contexts
@@ -127,6 +162,7 @@ def play(hspec):
             recs.append((k, st, real, exp))
         else:
             h.do(st)
+    h.recheck_tables()
     return h, recs
 
 
@@ -143,14 +179,29 @@ def judge_history(hspec, h, recs, models):
         where = 'step %d (%s(..) from context %d, after %s): ' % (
             k, st[3], st[1], ' '.join('%s%s' % (x[0], x[1:3] if x[0] != 'call' else [x[1]])
                                       for x in hspec['steps'][max(0, k - 4):k]) or 'nothing')
-        out += judge(real, exp, models[ci] if models is not None else None, h.fds, 'history-', where)
+        out += judge(real, exp, models[ci] if models is not None else None, h.by_tag, 'history-', where,
+                     tagof=lambda d: h.tag.get(d, d))
+    for fid, diffs in h.table_fails[:1]:
+        out.append(('oracle', 'definition-table', table_message(hspec['defs'][str(fid)], diffs)))
     return out
+
+
+def table_message(ospec, diffs):
+    return ('the FunctionDefinition yaql builds for the Python callable of overload %d differs from what the documented '
+            'rules (extending_yaql.rst) derive from its signature and decorators: %s' % (ospec['id'], '; '.join(diffs[:3])))
+
+
+NEW_CTX = ('root', 'child', 'multi', 'linked')
 
 
 def run_history(hspec, drv):
     h, recs = play(hspec)
     models = ask_histories(drv, [h])
-    return judge_history(hspec, h, recs, models[0] if models else None), recs
+    fs = judge_history(hspec, h, recs, models[0] if models else None)
+    for o, d in rl.ask_tables(drv, h.sig_items())[:1]:
+        fs.append(('mismatch', 'definition-table', 'overload %d: the Lean model of get_function_definition and yaql '
+                   'disagree: %s' % (o['id'], '; '.join(d[:3]))))
+    return fs, recs
 
 
 def shrink_history(hspec, drv, kind, key):
@@ -162,27 +213,29 @@ def shrink_history(hspec, drv, kind, key):
         return any(f[0] == kind and f[1] == key for f in fs)
 
     def used(c):
-        return {st[2] for st in c['steps'] if st[0] in ('reg', 'del')}
+        return {st[2] for st in c['steps'] if st[0] in ('reg', 'regc', 'del')}
+    import time
+    deadline = time.time() + 25          # a shrunk input is a convenience: never spend minutes on it
     changed = True
-    while changed:
+    while changed and time.time() < deadline:
         changed = False
         cands = []
         steps = hspec['steps']
         for k in range(len(steps) - 1, -1, -1):
-            if steps[k][0] in ('reg', 'del', 'call'):
+            if steps[k][0] in ('reg', 'regc', 'del', 'call'):
                 c = copy.deepcopy(hspec)
                 del c['steps'][k]
                 cands.append(c)
             elif steps[k][0] == 'child':
                 # a context nobody mentions later can go when it is the last one created
-                idx = sum(1 for s in steps[:k] if s[0] in ('root', 'child'))
+                idx = sum(1 for s in steps[:k] if s[0] in NEW_CTX)
                 later = [s for s in steps[k + 1:]]
-                if not any(s[0] in ('root', 'child') for s in later) and not any(s[1] == idx for s in later):
+                if not any(s[0] in NEW_CTX for s in later) and not any(s[1] == idx for s in later):
                     c = copy.deepcopy(hspec)
                     del c['steps'][k]
                     cands.append(c)
         for k, st in enumerate(steps):
-            if st[0] == 'reg' and st[3]:
+            if st[0] in ('reg', 'regc') and st[3]:
                 c = copy.deepcopy(hspec)
                 c['steps'][k][3] = False
                 cands.append(c)
@@ -206,6 +259,8 @@ def shrink_history(hspec, drv, kind, key):
                 del c['defs'][f]['params'][pi]
                 cands.append(c)
         for c in cands:
+            if time.time() > deadline:
+                break
             if fails(c):
                 hspec = c
                 changed = True
@@ -218,15 +273,27 @@ def history_features(hspec, recs, hist):
         hist[k] = hist.get(k, 0) + n
     steps = hspec['steps']
     bump('hist:style:' + hspec.get('style', '?'))
-    bump('hist:contexts:%d' % sum(1 for s in steps if s[0] in ('root', 'child')))
+    bump('hist:contexts:%d' % sum(1 for s in steps if s[0] in NEW_CTX))
     for s in steps:
-        bump('hist:step:' + s[0] + (':exclusive' if s[0] == 'reg' and s[3] else ''))
+        bump('hist:step:' + s[0] + (':exclusive' if s[0] in ('reg', 'regc') and s[3] else ''))
     par = []
     for s in steps:
-        if s[0] == 'root':
+        if s[0] in ('root', 'multi'):
             par.append(None)
         elif s[0] == 'child':
             par.append(s[1])
+        elif s[0] == 'linked':
+            par.append(s[1])
+    # one definition object / one callable in several contexts, with different exclusive flags
+    where = {}
+    for s in steps:
+        if s[0] in ('reg', 'regc'):
+            where.setdefault(s[2], set()).add((s[1], bool(s[3])))
+    for f, ws in where.items():
+        if len({c for c, _ in ws}) > 1:
+            bump('hist:shared-definition')
+            if len({x for _, x in ws}) > 1:
+                bump('hist:shared-definition:plain-here-exclusive-there')
 
     def ancestors(i):
         out = []
@@ -249,8 +316,9 @@ def history_features(hspec, recs, hist):
             if hit:
                 bump('hist:call-change-in-ancestor-call:' + hit)
             seen_calls.append((k, s[1], s[3]))
-        elif s[0] in ('reg', 'del') and seen_calls:
-            changed.append((k, s[1], hspec['defs'][str(s[2])].get('fname', 'f'), s[0]))
+        elif s[0] in ('reg', 'regc', 'del') and seen_calls:
+            o = hspec['defs'].get(str(s[2]))
+            changed.append((k, s[1], o.get('fname', 'f') if o else 'f', s[0]))
     prev = {}
     for k, st, real, exp in recs:
         bump('hist:outcome:' + str(real.get('err', 'delegate-raised' if 'delegate_error' in real else 'chosen')))
@@ -271,7 +339,11 @@ def run_case(case, drv):
         req = dict(p='Resolve', fams=[dict(layers=fam.enc_layers(), calls=[call.enc()])])
         req['lat'] = rl.T.lattice()
         model = drv.ask(req)['out'][0][0]
-    return compare(fam, call, model) + (fam,)
+    fs, real = compare(fam, call, model)
+    for o, d in rl.ask_tables(drv, fam.sig_items())[:1]:
+        fs.append(('mismatch', 'definition-table', 'overload %d: the Lean model of get_function_definition and yaql '
+                   'disagree: %s' % (o['id'], '; '.join(d[:3]))))
+    return fs, real, fam
 
 
 def shrink(case, drv, kind, key):
@@ -281,8 +353,10 @@ def shrink(case, drv, kind, key):
         except Exception:
             return False
         return any(f[0] == kind and f[1] == key for f in fs)
+    import time
+    deadline = time.time() + 25          # a shrunk input is a convenience: never spend minutes on it
     changed = True
-    while changed:
+    while changed and time.time() < deadline:
         changed = False
         cands = []
         for li, layer in enumerate(case['layers']):
@@ -310,6 +384,8 @@ def shrink(case, drv, kind, key):
             del c['call']['kw'][ki]
             cands.append(c)
         for c in cands:
+            if time.time() > deadline:
+                break
             if fails(c):
                 case = c
                 changed = True
@@ -330,10 +406,24 @@ def features(case, real, hist):
             bump('kind:' + o['kind'])
             if o.get('nk'):
                 bump('no_kwargs')
+            py = o.get('py')
+            if py:
+                bump('py:style:' + py.get('style', 'def'))
+                bump('py:via:' + py.get('via', 'fd'))
+                bump('py:name-by:' + py.get('nameby', 'arg'))
+                if py.get('dseed') is not None:
+                    bump('py:decorators-shuffled')
+                kinds = {p['kind'] for p in o['params'] if 'default' in p}
+                if {'pos', 'kwonly'} <= kinds:
+                    bump('py:positional-and-keyword-only-defaults')
             for p in o['params']:
                 bump('param:' + p['kind'] + ('+default' if 'default' in p else ''))
                 t = p.get('ty')
-                bump('type:' + ('undeclared' if t is None else t if isinstance(t, str) else 'py'))
+                bump('type:' + ('undeclared' if t is None else t if isinstance(t, str) else
+                                'bare-class' if t[0] == 'cls' else 'py'))
+                for flag in ('byname', 'byindex', 'nullable'):
+                    if p.get(flag) is not None:
+                        bump('param:' + flag)
     c = case['call']
     if 'recv' in c:
         bump('call:method')
@@ -348,21 +438,28 @@ def features(case, real, hist):
 def run(env, res):
     drv = env['driver']
     rng = common.make_rng(env['seed'], 'C05')
-    n_fam = 12000 if env["tier"] == "quick" else 110000
+    n_fam = 8000 if env["tier"] == "quick" else 70000
     res.rule = ('random overload families (1-4 layers, 0-4 overloads per layer, parameters positional/defaulted/keyword-only/'
                 '*/**/hidden/lazy/constant over the lattice Base>L,R>D + int/str/object/NoneType) with 3 calls each derived '
                 'from a random overload\'s signature and mutated; distinct = distinct (family, call); non-trivial = '
                 'at least two overloads and the outcome is not Unknown')
     hist = {}
-    n_hist = 4500 if env["tier"] == "quick" else 45000
+    n_hist = 3200 if env["tier"] == "quick" else 28000
     res.rule += ('; plus call histories on live Context forests (1-7 contexts): overloads of a pool of 2-6 are registered '
                  'step by step (same / ancestor / descendant / sibling contexts, some exclusively, some twice), deleted '
                  'with delete_function, children are created before and after, and calls - new ones and repeated '
                  'earlier ones - are made in between from old and new contexts; every call is compared with the rules '
                  'and the model applied to the family AS REGISTERED AT THAT MOMENT (the harness\'s own record of the API '
-                 'calls); distinct = distinct history')
+                 'calls); contexts are plain Contexts, MultiContexts over existing ones and LinkedContexts (40 % of the '
+                 'histories); half of the overloads are randomly written Python callables (def / closure of one factory / '
+                 'lambda / class function; decorators in shuffled order; hidden by name; bare classes; by index; python-style '
+                 'names under the CamelCase convention) registered as prepared definitions or as callables; one definition '
+                 'object / one callable is registered in several contexts with different exclusive flags in both orders '
+                 '(45 % of the histories favour it); distinct = distinct history')
     if env['replay']:
         rp = json.load(open(env['replay']))
+        if 'ospec' in rp['case']:       # a definition alone: one layer, an empty call
+            rp['case'] = dict(layers=[dict(fns=[rp['case']['ospec']], x=False)], call=dict(args=[], kw=[]))
         cases = [rp['case']]
         if 'steps' in rp['case']:
             fs, recs = run_history(rp['case'], drv)
@@ -396,6 +493,11 @@ def run(env, res):
                                                     for _, fam, calls, _ in batch])
             req['lat'] = rl.T.lattice()
             models = drv.ask(req)['out']
+            for o, d in rl.ask_tables(drv, [it for _, fam, _, _ in batch for it in fam.sig_items()])[:2]:
+                res.fail('mismatch', 'definition-table', 'overload %d: the Lean model of get_function_definition and '
+                         'yaql disagree: %s' % (o['id'], '; '.join(d[:3])), dict(ospec=o))
+        hist['definitions-compared'] = hist.get('definitions-compared', 0) + sum(
+            len(fam.fds) for _, fam, _, _ in batch)
         for bi, (layers, fam, calls, cspecs) in enumerate(batch):
             for ci, call in enumerate(calls):
                 case = dict(layers=layers, call=cspecs[ci])
@@ -406,12 +508,12 @@ def run(env, res):
                 res.traces += 1 if models else 0
                 features(case, real, hist)
                 for kind, key, msg in fs[:1]:
-                    if len(res.failures) < 6:
+                    if len(res.failures) < 3:
                         small = shrink(case, drv, kind, key)
                         fs2, _, _ = run_case(small, drv)
                         msg2 = next((m for k, ky, m in fs2 if k == kind and ky == key), msg)
                         res.fail(kind, key, msg2, small)
-                    else:
+                    elif len(res.failures) < 10:
                         res.fail(kind, key, msg, case)
         del batch[:]
 
@@ -427,7 +529,7 @@ def run(env, res):
         batch.append((layers, fam, calls, cspecs))
         if len(batch) >= 200:
             flush()
-        if len(res.failures) >= 12:
+        if len(res.failures) >= 6:
             break
     flush()
 
@@ -438,6 +540,10 @@ def run(env, res):
         if not hbatch:
             return
         models = ask_histories(drv, [h for _, h, _ in hbatch])
+        for o, d in rl.ask_tables(drv, [it for _, h, _ in hbatch for it in h.sig_items()])[:2]:
+            res.fail('mismatch', 'definition-table', 'overload %d: the Lean model of get_function_definition and '
+                     'yaql disagree: %s' % (o['id'], '; '.join(d[:3])), dict(ospec=o))
+        hist['definitions-compared'] = hist.get('definitions-compared', 0) + sum(len(h.fds) for _, h, _ in hbatch)
         for bi, (hspec, h, recs) in enumerate(hbatch):
             fs = judge_history(hspec, h, recs, models[bi] if models else None)
             ncalls = len(recs)
@@ -451,12 +557,12 @@ def run(env, res):
                 if (kind, key) in done:
                     continue
                 done.add((kind, key))
-                if sum(1 for f in res.failures if str(f.key).startswith('history-')) < 4:
+                if sum(1 for f in res.failures if str(f.key).startswith('history-')) < 2:
                     small = shrink_history(hspec, drv, kind, key)
                     fs2, _ = run_history(small, drv)
                     msg2 = next((m for k, ky, m in fs2 if k == kind and ky == key), msg)
                     res.fail(kind, key, msg2, small)
-                else:
+                elif len(res.failures) < 16:
                     res.fail(kind, key, msg, hspec)
         del hbatch[:]
 
@@ -470,7 +576,7 @@ def run(env, res):
         hbatch.append((hspec, h, recs))
         if len(hbatch) >= 150:
             hflush()
-        if len(res.failures) - nfail0 >= 8:
+        if len(res.failures) - nfail0 >= 4:
             break
     hflush()
     hist.pop('hist:sampled', None)
@@ -484,12 +590,19 @@ LEVEL_TEXT = ('Lean 4 theorems over a code-shaped model of runner.call/choose_ov
               '(C05Hist): a call made at any moment of any history of register_function / delete_function / '
               'create_child_context operations resolves as the rules prescribe for the family the context chain denotes at '
               'that moment (resolveIn_eq_spec, via C17 layers), two histories that end in the same visible family give the '
-              'same outcome (resolve_history_independent), and registrations / deletions outside the chain are invisible. '
+              'same outcome (resolve_history_independent), and registrations / deletions outside the chain are invisible; '
+              'for the step from a Python callable to the parameter table (C05Sig, model Yaql.Signature of set_parameter / '
+              'get_function_definition): every entry has the key, position and default its argument has in the Python '
+              'signature (define_sound, define_complete), so every argument with a Python default - positional or '
+              'keyword-only - gets it and no other does (defaults_complete, mandatory_stay_mandatory), whatever the order '
+              'of the decorators (define_perm); and the 284 definitions of the live standard library are the ones this '
+              'translation derives from inspect.signature of their payloads (C05SigGen, regenerated each run). '
               'The model is tied to the code by running generated families and generated call histories on real Context '
               'chains and on the compiled model (the real FunctionDefinition objects are what is serialised), comparing '
               'chosen overload / error class, evaluation log and bound argument vector, and by an independent Python '
               'transcription of the written rules.')
-LEVEL_NOTE = ('trusted: Lean kernel; hand-written models Yaql/Model/Types.lean, Resolve.lean, Context.lean, ResolveCtx.lean; '
+LEVEL_NOTE = ('trusted: Lean kernel; hand-written models Yaql/Model/Types.lean, Resolve.lean, Context.lean, ResolveCtx.lean, '
+              'Signature.lean; the transcription of the documented definition rules (expected_fd); '
               'the encoder of real objects; the differential harness, its record of the registrations and the rules '
               'transcription. All theorems are unconditional.')
 TECHNIQUE = ('Lean 4 proof (induction over candidate lists / parameter lists / context shapes) + differential testing '
